@@ -43,16 +43,9 @@ KIND_BT = {'constant': BT_CONSTANT, 'function': BT_FUNCTION, 'callback': BT_CALL
            'interface': BT_INTERFACE}
 GTYPE_KINDS = ('record', 'boxed', 'union', 'enum', 'flags', 'class', 'interface')
 
-# Genuine defect of the unchanged tree found by this check (reported to the integrator; see the
-# final report).  Routed through ctx.report_failure like every other failure; listed here so that
-# the run passes until the integrator moves it to known_findings.json or commits a fix.
-PENDING_FINDINGS = [
-    {'property': 'C14', 'status': 'known', 'key': 'by_gtype_name:BLOB_TYPE_BOXED',
-     'what': 'a <glib:boxed> entry (BLOB_TYPE_BOXED, always carries a GType name) is not found by its GType '
-             'name: BLOB_IS_REGISTERED_TYPE omits BLOB_TYPE_BOXED, so g_typelib_get_dir_entry_by_gtype_name '
-             'and g_irepository_find_by_gtype answer NULL (e.g. <glib:boxed glib:name="Bx" '
-             'glib:type-name="TBx" glib:get-type="t_bx_get_type"/>, probe "TBx")'},
-]
+# Genuine defects of the unchanged tree found by this check and not repaired yet (none: the
+# <glib:boxed> finding was repaired by /repo 969dad1).
+PENDING_FINDINGS = []
 
 GIR_HEAD = ('<?xml version="1.0"?>\n<repository version="1.2" xmlns="http://www.gtk.org/introspection/core/1.0" '
             'xmlns:c="http://www.gtk.org/introspection/c/1.0" xmlns:glib="http://www.gtk.org/introspection/glib/1.0">\n')
@@ -863,8 +856,6 @@ def check_set(ctx, tools, cnt, desc, probes, tag, samples=None):
                     if len(want) >= 1:
                         bad = 'reported absent although entry #%d (%s, blob type %d) has that GType name' \
                               % (want[0], dump[want[0]][0], dump[want[0]][2])
-                        if dump[want[0]][2] == BT_BOXED:
-                            key = 'by_gtype_name:BLOB_TYPE_BOXED'
                 else:
                     bad = 'unexpected result code %d' % got
                 if bad:
@@ -983,8 +974,8 @@ REAL_GTYPES = ['GObject', 'GInitiallyUnowned', 'GBinding', 'GTypeModule', 'GType
                'GBookmarkFile', 'GPatternSpec', 'GVariantBuilder', 'GVariantDict', 'GVariantType',
                'gchararray', 'gint', 'gboolean', 'gdouble', 'gpointer', 'GBindingFlags', 'GIOCondition',
                'GNormalizeMode', 'GUnicodeType']
-HIST_KINDS = ('record', 'union', 'enum', 'flags', 'class', 'interface')    # registered types (no <glib:boxed>: known finding)
-REGISTERED_BT = (BT_STRUCT, BT_UNION, BT_ENUM, BT_FLAGS, BT_OBJECT, BT_INTERFACE)
+HIST_KINDS = ('record', 'boxed', 'union', 'enum', 'flags', 'class', 'interface')    # every kind of registered type
+REGISTERED_BT = (BT_STRUCT, BT_BOXED, BT_UNION, BT_ENUM, BT_FLAGS, BT_OBJECT, BT_INTERFACE)
 
 
 def build_world(recipe):
@@ -1024,7 +1015,7 @@ def build_world(recipe):
                 entries.append({'k': 'function', 'name': nm})
                 continue
             e = {'k': rng.choice(HIST_KINDS), 'name': nm}
-            must = e['k'] in ('class', 'interface')          # the compiler insists on glib:type-name for these
+            must = e['k'] in ('class', 'interface', 'boxed')  # the compiler insists on glib:type-name for these
             if must or rng.random() < 0.85:
                 style = rng.random()
                 if style < 0.45 and pool:
@@ -1390,7 +1381,7 @@ def model_request(world, ops):
         ents = []
         for e in n['entries']:
             bt = KIND_BT[e['k']]
-            g = e.get('gtype') if bt in REGISTERED_BT + (BT_BOXED,) else None
+            g = e.get('gtype') if bt in REGISTERED_BT else None
             d = e.get('domain') if bt in (BT_ENUM, BT_FLAGS) else None
             ents.append([e['name'], 1, bt] if g is None and d is None else [e['name'], 1, bt, g, d])
         libs.append({'ns': n['ns'], 'entries': ents, 'nlocal': len(ents), 'cprefix': n['cprefix']})
@@ -1729,8 +1720,8 @@ def run(ctx):
         'the caches of g_irepository_find_by_gtype / find_by_error_domain (info_by_gtype, unknown_gtypes, '
         'info_by_error_domain) are modelled by the state machine of C14_history and exercised by the histories; the '
         'single-typelib probes use a freshly registered GType per probe',
-        'histories: typelibs are never unloaded and a lazy->loaded transition registers the same file again (hypothesis '
-        'Admissible of C14_history); one version per namespace; loads that fail are not generated (C17)',
+        'histories: typelibs are never unloaded (a lazy->loaded transition promotes the typelib that is loaded); one '
+        'version per namespace; loads that fail are not generated (C17)',
         'histories: a GType is identified with its name (real GObject types, else a pointer type registered under the '
         'name); the set of namespaces loaded at each moment is computed from the calls made and their known dependencies '
         'and cross-checked against g_irepository_get_loaded_namespaces',
